@@ -279,7 +279,9 @@ orc_executor_emulate (OrcExecutor *ex)
     OrcCodeVariable *var = code->vars + i;
 
     if (var->size) {
-      tmpspace[i] = orc_malloc(ORC_MAX_VAR_SIZE * CHUNK_SIZE);
+      /* x2/x4 temporaries are wider than ORC_MAX_VAR_SIZE */
+      int size = var->size > ORC_MAX_VAR_SIZE ? var->size : ORC_MAX_VAR_SIZE;
+      tmpspace[i] = orc_malloc(size * CHUNK_SIZE);
     }
   }
 
